@@ -1543,10 +1543,30 @@ func (e *MetaCDC) Resume(req *request.ResumeRequest) (*request.ResumeResponse, e
 
 	if err := e.startInternal(cdcTask, false); err != nil {
 		log.Warn("fail to start the task", zap.Error(err))
+		e.releaseUnusedEntity(getTaskUniqueIDFromInfo(cdcTask), req.TaskID)
 		return nil, servererror.NewServerError(errors.WithMessage(err, "fail to start the task, task_id: "+req.TaskID))
 	}
 
 	return &request.ResumeResponse{}, nil
+}
+
+// releaseUnusedEntity gives back what a task start that failed half way has taken: the task's quit function
+// and reference, and the target's replication entity if no task uses it any more.
+func (e *MetaCDC) releaseUnusedEntity(uKey string, taskID string) {
+	e.replicateEntityMap.Lock()
+	defer e.replicateEntityMap.Unlock()
+	replicateEntity, ok := e.replicateEntityMap.data[uKey]
+	if !ok {
+		return
+	}
+	if quitFunc, ok := replicateEntity.taskQuitFuncs.GetAndRemove(taskID); ok {
+		quitFunc()
+		replicateEntity.refCnt.Dec()
+	}
+	if replicateEntity.refCnt.Load() == 0 {
+		replicateEntity.entityQuitFunc()
+		delete(e.replicateEntityMap.data, uKey)
+	}
 }
 
 func (e *MetaCDC) Get(req *request.GetRequest) (*request.GetResponse, error) {
